@@ -76,11 +76,95 @@ def boundary_histories(rng, tier):
     return hs
 
 
+def big_payload(rep):
+    """media data just below / above 4 GiB through the harness's sparse stream (real Mp4Writer and Mp4Reader); returns failures"""
+    import json
+    import common
+    M = 64 << 20
+    fails = []
+    kinds = ["avc"] if rep.tier == "quick" else muxgen.KINDS
+    cases = []
+    for kind in kinds:
+        for last in ((M - 4096, M + 100) if rep.tier == "quick" else (M - 4096, M - 49, M - 48, M - 47, M + 100)):
+            ops = [{"add": muxgen.tc(kind, ts=1000)}] + [{"w": [1, 1000, 0, i == 0, {"fill": (i % 250) + 1, "len": M, "step": 0}]} for i in range(63)]
+            ops.append({"w": [1, 1000, 0, False, {"fill": 7, "len": last, "step": 0}]})
+            cases.append({"base": 0, "cfg": dict(muxgen.DEFAULT_CFG, brands=[]), "ops": ops})
+    lines = [json.dumps(muxgen.to_harness(h, sparse=True, max_samples=70, extra=1)) for h in cases]
+    outs = common.harness_run("run", "release", lines, shards=min(4, len(lines)), timeout=1500)
+    for h, raw in zip(cases, outs):
+        try:
+            o = json.loads(raw)
+        except Exception:
+            fails.append({"what": "worker died on a > 4 GiB history: %s" % raw[:80]})
+            continue
+        sizes = [muxgen.blob_len(op["w"][4]) for op in h["ops"] if "w" in op]
+        fills = [op["w"][4]["fill"] for op in h["ops"] if "w" in op]
+        desc = "64 samples, last of %d bytes, payload %d" % (sizes[-1], sum(sizes))
+        if o.get("end") != "ok" or any(s != "ok" for s in o.get("statuses", [])):
+            fails.append({"what": "muxing %s failed: %s %s" % (desc, o.get("statuses", [])[-2:], o.get("end"))})
+            continue
+        segs = o["segments"]
+
+        def at(off, n):
+            for sg in segs:
+                st = sg[1]
+                ln = len(sg[2]) // 2 if sg[0] == "raw" else sg[3]
+                if st <= off < st + ln:
+                    if sg[0] == "raw":
+                        return bytes.fromhex(sg[2])[off - st:off - st + n]
+                    return bytes([sg[2]]) * n
+            return b""
+        total = o["len"]
+        ftyp_len = int.from_bytes(at(0, 4), "big")
+        s32 = int.from_bytes(at(ftyp_len, 4), "big")
+        if at(ftyp_len + 4, 4) != b"mdat":
+            fails.append({"what": "no mdat box after ftyp (%s)" % desc})
+            continue
+        msize = int.from_bytes(at(ftyp_len + 8, 8), "big") if s32 == 1 else s32
+        expect = 16 + sum(sizes)
+        if msize != expect or (s32 == 1) != (expect >= U32):
+            fails.append({"what": "mdat size field: form %s, value %d; the media data box spans %d bytes (%s)" % ("64-bit" if s32 == 1 else "32-bit", msize, expect, desc)})
+            continue
+        moov_off = ftyp_len + msize
+        if at(moov_off + 4, 4) != b"moov" or int.from_bytes(at(moov_off, 4), "big") != total - moov_off:
+            fails.append({"what": "the mdat size does not reach the moov box (%s)" % desc})
+            continue
+        rb = o.get("readback", {})
+        if rb.get("open") != "ok":
+            fails.append({"what": "the reader cannot open the > 4 GiB output (%s): %s" % (desc, rb.get("open"))})
+            continue
+        calls = {(k, t, s_): v for k, t, s_, v in rb["calls"]}
+        if calls.get(("cnt", 1, 0)) != "ok:64":
+            fails.append({"what": "sample count %s (%s)" % (calls.get(("cnt", 1, 0)), desc)})
+            continue
+        for k in range(1, 65):
+            v = calls.get(("rs", 1, k), {})
+            want = {"r": "some", "len": sizes[k - 1], "start": 1000 * (k - 1), "dur": 1000, "head": bytes([fills[k - 1]] * 8).hex(), "tail": bytes([fills[k - 1]] * 8).hex()}
+            if {x: v.get(x) for x in want} != want:
+                fails.append({"what": "sample %d of the > 4 GiB file reads back wrongly (%s)" % (k, desc), "expected": want, "observed": {x: v.get(x) for x in want}})
+                break
+        t = rb["tracks"][0]
+        first = ftyp_len + 16
+        need64 = any(first + sum(sizes[:i]) >= U32 for i in range(len(sizes)))
+        if t.get("has_co64") != need64:
+            fails.append({"what": "co64 used = %s (%s)" % (t.get("has_co64"), desc)})
+    return fails, len(cases)
+
+
 def check(rep):
     rng = random.Random(rep.seed * 7919 + 13)
     hs = boundary_histories(rng, rep.tier)
+    import common
+    with common.Lock():
+        common.harness_build(["run"])
+    bf, nbig = big_payload(rep)
+    for i, f in enumerate(bf[:3]):
+        rep.violation("big_payload_%d" % i, dict(f, kind="input"))
+    rep.coverage["big_payload_histories"] = nbig
+    if bf:
+        return
     muxcheck.run_property(rep, "C13", CONE, hs, [muxcheck.oracle_c01, muxcheck.oracle_c02, oracle_c13],
                           "histories for every track kind whose first chunk offset lands at 2^32-9..2^32+5, 2^40, 2^62 (output starting at a non-zero stream position), "
                           "and whose cumulative media / track / movie durations land at 2^32-2..2^32+1 for six timescale pairs, plus random histories at random "
                           "start positions; read back with the real reader, validated by the independent parser, forms checked; debug and release. "
-                          "(media data larger than 4 GiB is covered by the theorem mdat_size_form_lossless over unbounded N; this run does not write 4 GiB)")
+                          "Media data just below / above 4 GiB is muxed for real through a sparse stream (64 samples of 64 MiB; read back with the real reader, mdat size form and tiling checked on the real bytes).")
